@@ -363,6 +363,11 @@ def build_scenario(spec: Dict[str, Any]):
             model = MultiLayerPerceptron(n_feat, H, n_layers=2, n_units=4)
         elif m == "mlp_tanh":
             model = MultiLayerPerceptron(n_feat, H, n_layers=2, n_units=4, activation=torch.nn.Tanh())
+        elif m == "linear_sigmoid":
+            # the last operation keeps its own output for the backward pass
+            model = torch.nn.Sequential(torch.nn.Linear(n_feat, H), torch.nn.Sigmoid())
+        elif m == "mlp_tanh_out":
+            model = MultiLayerPerceptron(n_feat, H, n_layers=1, n_units=3, activation=torch.nn.Tanh(), out_activation=torch.nn.Tanh())
         elif m == "identity":
             model = torch.nn.Identity()
         elif m == "naked":
